@@ -7,6 +7,7 @@ from ..srcmodel import unparse, norm, walk_no_nested, calls_in
 from .common import is_method_call, cfg_of, find_stmt_node
 from . import evalrules as er
 from . import c01
+from . import tr
 
 PROP = 'C11'
 DECIDED = [
@@ -21,29 +22,23 @@ ASSUMPTIONS = ['assert statements are enabled (python -O would disable the non-n
 
 def r2(repo, run):
     fi = repo.func('ConfigNode.ayns.on_evaluate')
-    rets = [s for s in walk_no_nested(fi.node) if isinstance(s, ast.Return)]
-    if len(rets) != 1 or not isinstance(rets[0].value, ast.Name):
-        raise AnalysisError('on_evaluate: single `return <name>` not recognised')
-    v = rets[0].value.id
-    asserts = [norm(s.test) for s in fi.node.body if isinstance(s, ast.Assert) and s.lineno < rets[0].lineno]
-    raises = [norm(s.test) for s in fi.node.body if isinstance(s, ast.If) and any(isinstance(b, ast.Raise) for b in s.body)]
-    need = {'%s is not self' % v: False, 'not isinstance(%s, ConfigNode)' % v: False}
-    for a in asserts:
-        if a in need:
-            need[a] = True
-    for r in raises:
-        if r == '%s is self' % v:
-            need['%s is not self' % v] = True
-        if r == 'isinstance(%s, ConfigNode)' % v:
-            need['not isinstance(%s, ConfigNode)' % v] = True
-    missing = [k for k, ok in need.items() if not ok]
-    defs = [s for s in fi.node.body if isinstance(s, ast.Assign) and norm(s.targets[0]) == v]
+    paths = [p for p in tr.paths_of(repo, fi, no_inline={'on_evaluate_impl'}, follow_exceptions=False) if p.status == 'return']
+    if not paths:
+        raise AnalysisError('on_evaluate: no returning path')
+    missing = set()
+    for p in paths:
+        impl = [e for e in p.events if tr.is_call(e, attr='on_evaluate_impl', recv='self.ayns')]
+        if len(impl) != 1 or p.ret is None or p.ret.text != impl[0].result.text:
+            raise AnalysisError('on_evaluate: result is not self.ayns.on_evaluate_impl(...)')
+        R = p.ret.text
+        if not tr.fact(p, '%s is self' % R, False):
+            missing.add('%s is not self' % 'result')
+        if not tr.fact(p, 'isinstance(%s, ConfigNode)' % R, False):
+            missing.add('not isinstance(result, ConfigNode)')
     if missing:
-        run.violation('C11.R2', fi, 'result contract of on_evaluate', 'the evaluated value is returned without checking `%s`: a node object can leak into the evaluated config' % '` / `'.join(missing))
-    elif len(defs) != 1 or not is_method_call(defs[0].value, recv='self', member='on_evaluate_impl', ayns=True):
-        raise AnalysisError('on_evaluate: result is not self.ayns.on_evaluate_impl(...)')
+        run.violation('C11.R2', fi, 'result contract of on_evaluate', 'the evaluated value is returned without checking `%s`: a node object can leak into the evaluated config' % '` / `'.join(sorted(missing)))
     else:
-        run.ok('C11.R2', fi, 'assert %s; assert %s; return %s' % (asserts[0], asserts[1] if len(asserts) > 1 else '', v), 'no node leaves an evaluation')
+        run.ok('C11.R2', fi, 'every returning path established: result is not self, not isinstance(result, ConfigNode)', 'no node leaves an evaluation')
 
 
 def r3(repo, run):
@@ -73,16 +68,36 @@ def r3(repo, run):
                 else:
                     run.ok('C11.R3', (fi.file, comp.lineno, fi.qualname), norm(comp)[:120], 'keys evaluated too')
     ev = repo.func('EvalNode.ayns.on_evaluate_impl')
-    re_ev = [s for s in walk_no_nested(ev.node) if isinstance(s, ast.If) and norm(s.test) == 'isinstance(ret, ConfigNode)']
-    if not re_ev or not any(is_method_call(c, member='evaluate_node') for c in calls_in(re_ev[0])):
+    from .c12 import ENI
+    n = 0
+    bad = None
+    for p in tr.paths_of(repo, ev, no_inline=ENI, follow_exceptions=False):
+        if p.status != 'return' or p.ret is None:
+            continue
+        evals = [e for e in p.events if e.kind == 'call' and e.callee == 'eval']
+        if len(evals) != 1:
+            raise AnalysisError('EvalNode.on_evaluate_impl: a returning path without exactly one eval(...)')
+        R = evals[0].result.text
+        n += 1
+        is_node = [pol for t, pol in p.facts if t == 'isinstance(%s, ConfigNode)' % R]
+        if p.ret.text == R:
+            if not is_node or is_node[0] is not False:
+                bad = p
+        else:
+            re_ = [e for e in p.events if e.kind == 'call' and e.attr == 'evaluate_node' and e.args and e.args[0].text == R and e.result is not None and e.result.text == p.ret.text]
+            if not re_:
+                raise AnalysisError('EvalNode.on_evaluate_impl: returned value %s not recognised' % p.ret.text[:60])
+    if not n:
+        raise AnalysisError('EvalNode.on_evaluate_impl: no returning path')
+    if bad is not None:
         run.violation('C11.R3', ev, 'node returned by evaluated code', 'a node returned by !eval code is not evaluated again through the context')
     else:
-        run.ok('C11.R3', (ev.file, re_ev[0].lineno, ev.qualname), 'if isinstance(ret, ConfigNode): ret = ctx.evaluate_node(ret, path)')
+        run.ok('C11.R3', ev, 'the result of eval(...) is returned as is only when it is not a ConfigNode; otherwise ctx.evaluate_node(result, path)')
     ga = repo.func('Bunch.__getattr__')
-    rets = [s for s in walk_no_nested(ga.node) if isinstance(s, ast.Return)]
-    bad = [r for r in rets if norm(r.value) != 'self[%s]' % ga.params()[1]]
-    if bad or not rets:
-        run.violation('C11.R3', ga, norm(bad[0]) if bad else 'no return', 'attribute access does not return the stored object itself (cfg.a is cfg[\'a\'] breaks; writes through one spelling are lost)', node=bad[0] if bad else None)
+    gp = [p for p in tr.paths_of(repo, ga, follow_exceptions=False) if p.status == 'return']
+    badg = [p for p in gp if p.ret is None or p.ret.text != 'self[%s]' % ga.params()[1]]
+    if badg or not gp:
+        run.violation('C11.R3', ga, ('return ' + badg[0].ret.text[:60]) if badg and badg[0].ret is not None else 'no return', 'attribute access does not return the stored object itself (cfg.a is cfg[\'a\'] breaks; writes through one spelling are lost)')
     else:
         run.ok('C11.R3', ga, 'Bunch.__getattr__ returns self[name]')
     for cls in ('Bunch',):
